@@ -423,6 +423,12 @@ func init() {
 		}
 		return in.tb.Const(64, uint64(n))
 	}
+	// vxSpawn(f): start a second logical thread here; it runs until it finishes or blocks on a mutex held by another
+	// logical thread, then the caller continues (see threads.go)
+	V["vxSpawn"] = func(in *Interp, fn *ssa.Function, a []Value) Value {
+		in.spawn(a[0])
+		return nil
+	}
 	V["vxHeldW"] = func(in *Interp, fn *ssa.Function, a []Value) Value {
 		c := lockCell(a[0])
 		ls := in.locks[c]
@@ -747,16 +753,34 @@ func init() {
 				ls = &lockState{}
 				in.locks[c] = ls
 			}
+			me := in.thr // nil while only one logical thread exists
+			for {
+				mine := ls.ownerR[me]
+				if write {
+					if !ls.writer && ls.readers == 0 {
+						break
+					}
+					if (ls.writer && ls.ownerW == me) || (ls.readers > 0 && mine == ls.readers) {
+						unsupported("self-deadlock: Lock on a mutex already held on this path (%s)", in.cur.fn.String())
+					}
+				} else {
+					if !ls.writer {
+						break
+					}
+					if ls.ownerW == me {
+						unsupported("self-deadlock: RLock on a mutex write-held on this path")
+					}
+				}
+				in.blockOn(c, write)
+			}
 			if write {
-				if ls.writer || ls.readers > 0 {
-					unsupported("self-deadlock: Lock on a mutex already held on this path (%s)", in.cur.fn.String())
-				}
-				ls.writer = true
+				ls.writer, ls.ownerW = true, me
 			} else {
-				if ls.writer {
-					unsupported("self-deadlock: RLock on a mutex write-held on this path")
-				}
 				ls.readers++
+				if ls.ownerR == nil {
+					ls.ownerR = map[*thread]int{}
+				}
+				ls.ownerR[me]++
 			}
 			return nil
 		}
@@ -769,13 +793,17 @@ func init() {
 				if ls == nil || !ls.writer {
 					in.goPanicStr("fatal error: sync: unlock of unlocked mutex")
 				}
-				ls.writer = false
+				ls.writer, ls.ownerW = false, nil
 			} else {
 				if ls == nil || ls.readers == 0 {
 					in.goPanicStr("fatal error: sync: RUnlock of unlocked RWMutex")
 				}
 				ls.readers--
+				if ls.ownerR[in.thr] > 0 {
+					ls.ownerR[in.thr]--
+				}
 			}
+			in.wakeWaiters(c)
 			return nil
 		}
 	}
